@@ -1,6 +1,7 @@
 import MockeryModel.Sem.Testify
 import MockeryModel.Generated.TestifyFacts
 import MockeryModel.Sem.TestifyText
+import MockeryLemmas.Testify
 /-!
 # C03 — testify-style mocks route arguments, callbacks and return values faithfully
 
@@ -36,11 +37,6 @@ theorem called_args_rolled (sig : Sig) (a : CallArgs) (h : sig.variadic = true) 
   simp [calledArgs, h]
 
 /-! ### matching -/
-
-/-- matchers written from values, some of them relaxed to `mock.Anything` -/
-def relaxed : List Bool → List Val → List Matcher
-  | b :: bs, v :: vs => (if b then .anything else .exact v) :: relaxed bs vs
-  | _, _ => []
 
 theorem relaxed_matches : ∀ (mask : List Bool) (args : List Val), mask.length = args.length →
     diffZero (relaxed mask args) args = true
@@ -99,38 +95,6 @@ theorem no_return_value_panics (sig : Sig) (e : Expectation) (typed : List Val)
     extract sig e typed = [.panicked ("no-return-value " ++ sig.name)] := by
   simp [extract, hr, he]
 
-/-- when the return arguments are neither empty nor a single whole function, the results are extracted one by one -/
-theorem extract_eq (sig : Sig) (e : Expectation) (typed : List Val) (hr : sig.nresults ≠ 0)
-    (hne : e.rets ≠ []) (hnw : ∀ vs, e.rets ≠ [.wholeFunc vs]) :
-    extract sig e typed =
-      match extractAll e typed 0 sig.nresults with
-      | (evs, some vs) => evs ++ [.returned vs]
-      | (evs, none) => evs ++ [.panicked "conversion"] := by
-  unfold extract
-  simp only [hr, if_false]
-  cases hrets : e.rets with
-  | nil => exact absurd hrets hne
-  | cons r rs =>
-    cases rs with
-    | nil =>
-      cases r with
-      | wholeFunc vs => exact absurd hrets (hnw vs)
-      | val v => rfl
-      | provider v => rfl
-    | cons r2 rs2 => rfl
-
-theorem extractAll_values (e : Expectation) (typed : List Val) (vs : List Val) (he : e.rets = vs.map .val) :
-    ∀ (n i : Nat), i + n ≤ vs.length → extractAll e typed i n = ([], some ((vs.drop i).take n))
-  | 0, i, _ => by simp [extractAll]
-  | n + 1, i, h => by
-    have hi : i < vs.length := by omega
-    have ih := extractAll_values e typed vs he n (i + 1) (by omega)
-    have hget : e.rets[i]? = some (.val vs[i]) := by simp [he, hi]
-    simp only [extractAll, extractOne, hget, ih]
-    simp only [List.nil_append]
-    congr 2
-    rw [List.drop_eq_getElem_cons hi, List.take_succ_cons]
-
 /-- **Return**: a matching call returns exactly the values given to `Return` (nil values of nillable
 results included: a token is returned as it was given) -/
 theorem return_values_exact (sig : Sig) (e : Expectation) (typed vs : List Val)
@@ -148,20 +112,6 @@ theorem run_and_return_exact (sig : Sig) (e : Expectation) (typed vs : List Val)
     (hr : sig.nresults ≠ 0) (he : e.rets = [.wholeFunc vs]) :
     extract sig e typed = [.saw "fn" e.id none typed, .returned vs] := by
   simp [extract, hr, he]
-
-theorem extractAll_providers (e : Expectation) (typed : List Val) (vs : List Val) (he : e.rets = vs.map .provider) :
-    ∀ (n i : Nat), i + n ≤ vs.length →
-      extractAll e typed i n =
-        ((List.range' i n).map (fun k => Ev.saw "provider" e.id (some k) typed), some ((vs.drop i).take n))
-  | 0, i, _ => by simp [extractAll]
-  | n + 1, i, h => by
-    have hi : i < vs.length := by omega
-    have ih := extractAll_providers e typed vs he n (i + 1) (by omega)
-    have hget : e.rets[i]? = some (.provider vs[i]) := by simp [he, hi]
-    simp only [extractAll, extractOne, hget, ih]
-    simp only [List.range'_succ, List.map_cons, List.singleton_append]
-    congr 2
-    rw [List.drop_eq_getElem_cons hi, List.take_succ_cons]
 
 /-- **function providers**: each per-result function is invoked exactly once, in result order, with the
 call's typed arguments, and the call returns exactly what they return -/
